@@ -66,6 +66,11 @@ def run(ctx):
             base = {"line1": l1, "line2": l2, "time": str(t)}
             try:
                 with common.time_limit(30):
+                    if j % 2:
+                        # the usual call pattern: sub-point (normalised internally) first, then the state for
+                        # the very same time object
+                        orb.get_lonlatalt(t)
+                        orb.get_position(t, normalize=True)
                     p, v = orb.get_position(t, normalize=False)
                     p1, _ = orb.get_position(t + h, normalize=False)
                     p0, _ = orb.get_position(t - h, normalize=False)
